@@ -340,4 +340,109 @@ theorem budget_suffices (a : Ast) (p : Plans) (hfin : p.finite = true) :
     refine level (4 * (k + 1) + 3) (p.budget k) (fun m c' hc' f' hf' => ?_) n c (by omega) f hf
     exact ih m c' (by omega) f' hf'
 
+/-! ### the budget grows by at most a constant per 4 bytes -/
+
+section lipschitz
+variable (recD recD' : String → Nat) (far far' d : Nat)
+variable (hrec : ∀ m, recD' m ≤ recD m + d) (hfar : far' ≤ far + d)
+
+include hrec in
+theorem basic_need_shift (b : BasicDec) : b.need recD' ≤ b.need recD + d := by
+  cases b <;> simp only [BasicDec.need] <;> first | omega | (have := hrec ‹String›; omega)
+
+include hrec hfar in
+theorem field_need2_shift (fd : FieldDec) : fd.need2 recD' far' ≤ fd.need2 recD far + d := by
+  cases fd with
+  | one b => simp only [FieldDec.need2]; have := basic_need_shift recD recD' d hrec b; omega
+  | fixedArr k b => simp only [FieldDec.need2]; have := basic_need_shift recD recD' d hrec b; omega
+  | varArr ty g m => simp only [FieldDec.need2]; omega
+  | fixedBytes n => simp only [FieldDec.need2]; omega
+  | varBytes m => simp only [FieldDec.need2]; omega
+  | varString m => simp only [FieldDec.need2]; omega
+
+include hrec hfar in
+theorem fields_need2_shift : ∀ (fs : List StructFieldDec), fieldsNeed2 recD' far' fs ≤ fieldsNeed2 recD far fs + d
+  | [] => by simp only [fieldsNeed2]; omega
+  | f :: fs => by
+    simp only [fieldsNeed2]
+    have h1 : f.need2 recD' far' ≤ f.need2 recD far + d := by
+      cases f with
+      | plain nm fd => simp only [StructFieldDec.need2]; exact field_need2_shift recD recD' far far' d hrec hfar fd
+      | optional nm ty => simp only [StructFieldDec.need2]; exact hfar
+    have h2 := fields_need2_shift fs
+    omega
+
+include hrec hfar in
+theorem arms_need2_shift : ∀ (arms : List Arm), armsNeed2 recD' far' arms ≤ armsNeed2 recD far arms + d
+  | [] => by simp only [armsNeed2]; omega
+  | x :: xs => by
+    simp only [armsNeed2]
+    have h1 : x.need2 recD' far' ≤ x.need2 recD far + d := by
+      simp only [Arm.need2]
+      cases x.payload with
+      | none => simp
+      | some fd => exact field_need2_shift recD recD' far far' d hrec hfar fd
+    have h2 := arms_need2_shift xs
+    omega
+
+include hrec hfar in
+theorem body_need2_shift (b : ImplBody) : b.need2 recD' far' ≤ b.need2 recD far + d := by
+  cases b with
+  | struct fs => simp only [ImplBody.need2]; have := fields_need2_shift recD recD' far far' d hrec hfar fs; omega
+  | union u =>
+    simp only [ImplBody.need2]
+    have h1 := basic_need_shift recD recD' d hrec u.disc
+    have h2 := arms_need2_shift recD recD' far far' d hrec hfar u.arms
+    have h3 : u.tail.need2 recD' far' ≤ u.tail.need2 recD far + d := by
+      cases u.tail with
+      | defaultData fd => simp only [Tail.need2]; exact field_need2_shift recD recD' far far' d hrec hfar fd
+      | errUnknown => simp only [Tail.need2]; omega
+      | none => simp only [Tail.need2]; omega
+    omega
+  | enum arms => simp only [ImplBody.need2]; omega
+  | typedef fd => simp only [ImplBody.need2]; have := field_need2_shift recD recD' far far' d hrec hfar fd; omega
+
+end lipschitz
+
+theorem localNeed_shift (p : Plans) (far d : Nat) : ∀ (g : Nat) (n : String), p.localNeed (far + d) g n ≤ p.localNeed far g n + d := by
+  intro g
+  induction g with
+  | zero => intro n; simp only [Plans.localNeed]; omega
+  | succ g ih =>
+    intro n
+    simp only [Plans.localNeed]
+    cases p.findImpl n with
+    | none => simp only; omega
+    | some i => exact body_need2_shift _ _ far (far + d) d ih (Nat.le_refl _) i.body
+
+theorem foldr_max_shift (f g : String → Nat) (d : Nat) (h : ∀ x, f x ≤ g x + d) :
+    ∀ (l : List String), (l.map f).foldr max 1 ≤ (l.map g).foldr max 1 + d
+  | [] => by simp only [List.map_nil, List.foldr_nil]; omega
+  | x :: xs => by
+    simp only [List.map_cons, List.foldr_cons]
+    have h1 := h x
+    have h2 := foldr_max_shift f g d h xs
+    omega
+
+theorem maxLocal_shift (p : Plans) (far d : Nat) : p.maxLocal (far + d) ≤ p.maxLocal far + d := by
+  simp only [Plans.maxLocal]
+  have := foldr_max_shift
+    (fun n => p.localNeed (far + d) (p.rankOf (p.impls.length + 1) n + 1) n)
+    (fun n => p.localNeed far (p.rankOf (p.impls.length + 1) n + 1) n) d
+    (fun n => localNeed_shift p far d _ n) (p.impls.map (·.name))
+  simpa [List.map_map, Function.comp_def] using this
+
+/-- **the budget is linear in the buffer length**: at most `p.maxLocal 0` per 4 bytes -/
+theorem budget_linear (p : Plans) : ∀ (k : Nat), p.budget k ≤ (k + 1) * p.maxLocal 0
+  | 0 => by simp [Plans.budget]
+  | k + 1 => by
+    simp only [Plans.budget]
+    have h1 : p.maxLocal (p.budget k) ≤ p.maxLocal 0 + p.budget k := by
+      have := maxLocal_shift p 0 (p.budget k)
+      simpa using this
+    have h2 := budget_linear p k
+    have : (k + 1 + 1) * p.maxLocal 0 = (k + 1) * p.maxLocal 0 + p.maxLocal 0 := by
+      rw [Nat.add_mul, Nat.one_mul]
+    omega
+
 end Fx
